@@ -185,6 +185,12 @@ def build(work, instances, need_run=True, jobs=run.NCPU):
             f.write("#![allow(warnings)]\n")
             for inst in live:
                 f.write("mod %s;\n" % inst["name"])
+            f.write("fn guarded(name: &str, f: fn(&str) -> String, input: String) -> String {\n"
+                    "  let (tx, rx) = std::sync::mpsc::channel();\n"
+                    "  std::thread::Builder::new().stack_size(1 << 30).spawn(move || { let _ = tx.send(f(&input)); }).unwrap();\n"
+                    "  match rx.recv_timeout(std::time::Duration::from_secs(8)) {\n"
+                    "    Ok(s) => s,\n"
+                    "    Err(_) => { println!(\"@@R {} hang\", name); std::process::exit(7); }\n  }\n}\n")
             f.write("fn main() {\n  std::panic::set_hook(Box::new(|_| {}));\n"
                     "  let inputs: std::collections::HashMap<String, Vec<String>> = {\n"
                     "    let text = std::fs::read_to_string(std::env::args().nth(1).unwrap()).unwrap();\n"
@@ -202,7 +208,7 @@ def build(work, instances, need_run=True, jobs=run.NCPU):
                 f.write('  if !go { if after == "%s" { go = true; } } else {\n' % n)
                 f.write('  println!("@@B %s");\n' % n)
                 f.write('  println!("@@T %s {}", %s::q::table());\n' % (n, n))
-                f.write('  for i in inputs.get("%s").map(|v| v.as_slice()).unwrap_or(&[]) { println!("@@R %s {}", %s::q::run_one(i).replace("\\n", " ")); }\n  }\n' % (n, n, n))
+                f.write('  for i in inputs.get("%s").map(|v| v.as_slice()).unwrap_or(&[]) { println!("@@R %s {}", guarded("%s", %s::q::run_one, i.clone()).replace("\\n", " ")); }\n  }\n' % (n, n, n, n))
             f.write("}\n")
         t0 = time.time()
         cmd = ["cargo", "build" if need_run else "check", "--offline", "--message-format=json", "-j", str(jobs)]
@@ -268,6 +274,7 @@ def build(work, instances, need_run=True, jobs=run.NCPU):
             # parser or runtime): record it and continue after it
             run.log("vgen binary died in %s (exit %d)" % (cur, r.returncode))
             out[cur]["crashed"] = True
-            out[cur]["runs"].append("crash")
+            if r.returncode != 7:   # 7: watchdog, the "hang" line is already recorded
+                out[cur]["runs"].append("crash")
             after = cur
     return out
